@@ -37,9 +37,11 @@ Definition W_NILHDR : N := 1%N.   (* block.SetHeader(nil): header.Version *)
 Definition W_MAKE   : N := 2%N.   (* makeslice: len out of range *)
 Definition W_MINER  : N := 3%N.   (* block.Txs[0] with TxCount = 0 *)
 Definition W_SHASH  : N := 4%N.   (* pd.sTxHashes[i], i >= len *)
-Definition W_GROUP  : N := 5%N.   (* pd.block.Txs[index+j], group longer than the remaining slots *)
+Definition W_GROUP  : N := 5%N.   (* pd.block.Txs[index+j], group longer than the remaining slots
+                                     (excluded by the bound test in front of the expansion) *)
 Definition W_INDEX  : N := 6%N.   (* pd.block.Txs[index] (never reached: index comes from the same slice) *)
-Definition W_NILVAL : N := 7%N.   (* postBlockChain: p.val.addBroadcastMsg with p.val == nil (disableValidation) *)
+Definition W_NILVAL : N := 7%N.   (* postBlockChain: p.val.addBroadcastMsg with p.val == nil (disableValidation);
+                                     no longer a panic site: both call sites test p.val != nil *)
 
 (** 2^45: largest length of a slice of 8-byte elements that [make] does not reject *)
 Definition max_len : Z := 35184372088832.
@@ -145,6 +147,10 @@ Fixpoint fill (p : pool) (nd : list (nat * N)) (txs : list (option txid)) (ok : 
           match pool_get h p with
           | None => fill p tl txs false
           | Some e =>
+              (* index+len(group.GetTxs()) > len(pd.block.GetTxs()): the group does not fit,
+                 the slot stays nil and the build fails like for a missing transaction *)
+              if (length txs <? index + length (members e))%nat then fill p tl txs false
+              else
               match set_nth txs index (Some (px_id e)) with
               | None => Panic W_INDEX
               | Some txs1 =>
@@ -194,8 +200,9 @@ Definition init : state := mkSt [] [] [] 0.
 
 (** configuration / environment: elements the OS can provide to one [make],
     LtBlockPendTimeout (ms), heights for which the local GetBlocks fails,
-    disableValidation (then broadcastProtocol.val is nil: postBlockChain hands
-    the block to the blockchain module and panics right after) *)
+    disableValidation (then broadcastProtocol.val is nil: postBlockChain and
+    postMempool skip the validator's feedback list; nothing in the model
+    depends on the bit any more, it stays part of the recorded configuration) *)
 Record config := mkCfg { c_cap : Z; c_timeout : Z; c_nochain : list Z; c_noval : bool }.
 
 Fixpoint mem_n (x : N) (l : list N) : bool :=
@@ -203,9 +210,15 @@ Fixpoint mem_n (x : N) (l : list N) : bool :=
 Fixpoint mem_z (x : Z) (l : list Z) : bool :=
   match l with [] => false | y :: tl => Z.eqb x y || mem_z x tl end.
 
+(** ltBlock.GetHeader().GetTxCount(): nil-safe getters *)
+Definition lt_txcount (lb : ltblock) : Z :=
+  match lt_hdr lb with Some h => h_txcount h | None => 0 end.
+
 (** * addLtBlock (raw, as called inside handleBroadcastReceive) *)
 Definition add_lt (c : config) (p : pool) (now : Z) (from pub : N) (lb : ltblock) (st : state)
   : res (state * list eff) :=
+  (* txCount <= 0 || txCount > len(STxHashes): dropped before anything is sized by the count *)
+  if (lt_txcount lb <=? 0) || (Z.of_nat (length (lt_sh lb)) <? lt_txcount lb) then Ok (st, []) else
   match lt_hdr lb with
   | None => Panic W_NILHDR
   | Some h =>
@@ -241,9 +254,7 @@ Definition recv_lt_raw (c : config) (p : pool) (now : Z) (from pub : N) (lb : lt
     (st1, add_lt c p now from pub lb st1).
 
 (** * buildPendList and the body of pendBlockLoop *)
-Definition posted (e : list eff) : bool := match e with [] => false | _ :: _ => true end.
-
-Fixpoint scan (noval : bool) (p : pool) (now timeout : Z) (l : list pend)
+Fixpoint scan (p : pool) (now timeout : Z) (l : list pend)
   : res (list pend * list pend * list eff) :=
   match l with
   | [] => Ok ([], [], [])
@@ -253,8 +264,7 @@ Fixpoint scan (noval : bool) (p : pool) (now timeout : Z) (l : list pend)
       | Panic w => Panic w
       | Fatal => Fatal
       | Ok (pd', built, e) =>
-          if noval && posted e then Panic W_NILVAL else
-          match scan noval p now timeout tl with
+          match scan p now timeout tl with
           | Panic w => Panic w
           | Fatal => Fatal
           | Ok (keep, tmo, e') =>
@@ -274,7 +284,7 @@ Fixpoint requests (height : Z) (tmo : list pend) : list eff :=
   end.
 
 Definition tick_raw (c : config) (p : pool) (now : Z) (st : state) : res (state * list eff) :=
-  match scan (c_noval c) p now (c_timeout c) (st_pend st) with
+  match scan p now (c_timeout c) (st_pend st) with
   | Panic w => Panic w
   | Fatal => Fatal
   | Ok (keep, tmo, e) =>
@@ -331,9 +341,7 @@ Definition step (c : config) (st : state) (p : pool) (ev : event) : sres :=
   | ERecvLt now from pub lb =>
       match recv_lt_raw c p now from pub lb st with
       | (_, Ok (st2, e)) => Alive st2 p e
-      | (st1, Panic _) => Alive st1 p []      (* deferred recover in handleBroadcastReceive; with
-                                                 disableValidation the same recover swallows the nil
-                                                 dereference after a successful post: same outcome *)
+      | (st1, Panic _) => Alive st1 p []      (* deferred recover in handleBroadcastReceive *)
       | (_, Fatal) => Crashed 0%N
       end
   | ETick now =>
